@@ -143,6 +143,63 @@ func verifC18StateInit() {
 	verifReach("end")
 }
 
+// the shard count grows (a second assignment event for the same database, with a new assignment
+// object as it is read from the repository), then a node fails or starts: the report must follow the
+// grown assignment for every shard, old and new.
+func verifC18StateGrow() {
+	n := 2 + verifChoose("nodes", 2)
+	shards := 1 + verifChoose("shards", 2)
+	rf := 1 + verifChoose("replicaFactor", 2)
+	c := &verifCluster{n: n, shards: shards, rf: rf, m: verifStateManager()}
+	ids := verifNodes(n)
+	cfg := &models.Database{Name: "db", NumOfShard: shards, ReplicaFactor: rf}
+	start := verifChoose("startIndex", n)
+	sa, _ := ShardAssignment(ids, cfg, start, -1)
+	c.sa = sa
+	c.state = models.NewStorageState()
+	c.alive = make([]bool, n+1)
+	for i := 1; i <= n; i++ {
+		if verifChoose("alive", 2) == 1 {
+			c.alive[i] = true
+			c.state.NodeOnline(models.StatefulNode{ID: models.NodeID(i)})
+		}
+	}
+	sc := &verifStorageCluster{state: c.state}
+	c.m.initializeShardState(sc, sa)
+	c.invariant(true, "create database")
+	// growth: a fresh assignment object holding the old shards unchanged plus the new ones
+	grown := models.NewShardAssignment("db")
+	for id, r := range sa.Shards {
+		for _, node := range r.Replicas {
+			grown.AddReplica(id, node)
+		}
+	}
+	extra := 1 + verifChoose("extraShards", 2)
+	cfg.NumOfShard = shards + extra
+	verifAssert(ModifyShardAssignment(ids, cfg, grown, verifChoose("startIndex2", n), models.ShardID(shards)) == nil, "growth succeeds")
+	c.m.initializeShardState(sc, grown)
+	c.sa = grown
+	c.shards = shards + extra
+	c.invariant(true, "after growth")
+	// one or two node events
+	for ev := 0; ev < 2; ev++ {
+		node := 1 + verifChoose("eventNode", n)
+		if c.alive[node] {
+			c.alive[node] = false
+			c.state.NodeOffline(models.NodeID(node))
+			c.m.onNodeFailure(c.state, models.NodeID(node))
+			c.invariant(true, "node down after growth")
+		} else {
+			c.alive[node] = true
+			sn := models.StatefulNode{ID: models.NodeID(node)}
+			c.state.NodeOnline(sn)
+			c.m.onNodeStartup(c.state, sn)
+			c.invariant(true, "node up after growth")
+		}
+	}
+	verifReach("end")
+}
+
 func verifC18StateReach() {
 	c := verifArbitraryCluster(2, 1, 2)
 	st := c.state.ShardStates["db"][models.ShardID(0)]
